@@ -8,7 +8,7 @@ package encoding
 //@   requires s != nil && el != nil && el.Value != nil
 //@   modifies fix.Value.*
 //@   witness k = firstAnchored(string(data), el.Key)
-//@   ensures[C02,C14,C18] @found imp(k >= 0, fbPost(el.Value, bytes(valueAt(string(data), k + len(el.Key) + 1)), err))
+//@   ensures[C02,C14,C16,C10,C06,C18] @found imp(k >= 0, fbPost(el.Value, bytes(valueAt(string(data), k + len(el.Key) + 1)), err))
 //@   ensures[C02,C18] @notfound imp(k < 0, err == nil)
 //@   forall o ref
 //@   ensures[C03] @rawclean imp(istype(o, *fix.Raw), o.(*fix.Raw).value == old(o.(*fix.Raw).value) || noSOH(o.(*fix.Raw).value))
